@@ -118,3 +118,71 @@ pub fn empty_source() -> redirectionio::api::Source {
         weekdays: None,
     }
 }
+
+/// The HTML stage is never constructed in these harnesses, but the chain is a heap Vec of an enum
+/// whose discriminant CBMC does not constant-propagate, so symbolic execution would descend into the
+/// HTML tokenizer (and the SipHash-based void-element set) on an impossible branch.  These stubs
+/// turn that branch into an assertion: if the HTML stage were reachable the harness FAILS, so the
+/// cut cannot hide anything.
+pub fn html_filter_unreachable(
+    _this: &mut redirectionio::filter::HtmlFilterBodyAction,
+    _input: Vec<u8>,
+    _unit_trace: Option<&mut redirectionio::action::UnitTrace>,
+) -> Result<Vec<u8>, redirectionio::filter::VerifFilterBodyError> {
+    panic!("HTML stage reached in a text-only chain")
+}
+
+pub fn html_end_unreachable(_this: &mut redirectionio::filter::HtmlFilterBodyAction) -> Vec<u8> {
+    panic!("HTML stage reached in a text-only chain")
+}
+
+
+/// The fold harnesses use rules without markers, variables or transformers, but the captured-marker
+/// map and the rule live on the heap, where CBMC does not constant-propagate lengths, so symbolic
+/// execution would descend into every transformer (heck, Unicode case tables) and variable kind
+/// (date/IP formatting) on impossible branches.  These stubs turn the branches into assertions: if
+/// one were reachable the harness FAILS, so the cut cannot hide anything.
+pub fn to_transform_unreachable(_t: &redirectionio::api::Transformer) -> Option<Box<dyn redirectionio::marker::Transform>> {
+    panic!("transformer reached in a harness without transformers")
+}
+
+pub fn variable_value_unreachable(
+    _v: &redirectionio::api::Variable,
+    _m: &redirectionio::verif_shim::map::HashMap<String, String>,
+    _r: &redirectionio::http::Request,
+) -> String {
+    panic!("variable evaluated in a harness without variables")
+}
+
+/// Exact models of Route::capture and Rule::variables for rules WITHOUT markers and variables (the
+/// only rules the fold harnesses build): both return empty containers.  The preconditions that make
+/// the models exact are asserted inside them.  The real functions build and drop several heap maps
+/// and vectors whose lengths CBMC treats as symbolic (800 drop-glue iterations, > 10 GB).
+pub fn capture_nothing<T>(
+    r: &redirectionio::router::Route<T>,
+    _req: &redirectionio::http::Request,
+) -> redirectionio::verif_shim::map::HashMap<String, String> {
+    assert!(r.host().is_none() && r.headers().is_empty());
+    match r.path_and_query() {
+        redirectionio::marker::StaticOrDynamic::Static(_) => {}
+        _ => assert!(false, "capture model used on a route with markers"),
+    }
+    redirectionio::verif_shim::map::HashMap::new()
+}
+
+pub fn variables_nothing(
+    rule: &redirectionio::api::Rule,
+    captured: &redirectionio::verif_shim::map::HashMap<String, String>,
+    _req: &redirectionio::http::Request,
+) -> Vec<(String, String)> {
+    assert!(rule.variables.is_empty() && rule.markers.is_empty() && captured.is_empty());
+    Vec::new()
+}
+
+/// `Arc::drop_slow` (the last reference goes away: the whole Route<Rule> is dropped field by field)
+/// is unreachable in harnesses that keep a clone of every Arc they hand over, as a router does.
+/// The stub asserts exactly that, so the cut cannot hide anything; it removes ~1500 drop-glue loop
+/// iterations over heap vectors whose lengths CBMC treats as symbolic.
+pub fn arc_drop_slow_unreachable<T: ?Sized, A: std::alloc::Allocator>(_this: &mut std::sync::Arc<T, A>) {
+    panic!("last Arc reference dropped although the harness keeps a clone")
+}
